@@ -19,6 +19,7 @@ obligation that is *not encoded* -- never as a pass.
 import copy
 import re
 
+import time
 import z3
 
 import mirparse as mp
@@ -1047,6 +1048,10 @@ class Interp:
             self.path.calls = sorted(self.functions_run)
             paths.append(self.path)
             work.extend(self.pending)
+            # every queued decision trace yields at least one more path: give up as soon as the limit cannot be met instead of
+            # exploring `limit` long paths first (a value-dependent branch per segment at 257 segments is 2^257 paths)
+            if len(paths) + len(work) > limit:
+                raise PathLimit("more than %d paths (%d explored, %d queued)" % (limit, len(paths), len(work)))
         return paths
 
     def decide(self, cond):
@@ -1059,6 +1064,9 @@ class Interp:
         if z3.is_false(cond_s):
             return False
         k = len(self.path.decisions)
+        dl = getattr(self, "deadline", None)
+        if dl is not None and time.time() > dl:
+            raise PathLimit("time budget of the exploration exhausted after %d decisions on this path" % k)
         if k < len(self.prescribed):
             d = self.prescribed[k]
         else:
